@@ -4,7 +4,7 @@ import re
 
 FALLBACK_NAMES = ["ansi", "bigquery", "clickhouse", "duckdb", "generic", "glaredb", "mssql", "mysql", "postgres", "redshift", "sqlite", "snowflake"]
 
-SQLITE_VIOLATION = re.compile(r"no such column|no such table|syntax error|ambiguous column|same number of result columns|circular reference|incomplete input")
+SQLITE_VIOLATION = re.compile(r"no such column|no such table|syntax error|ambiguous column|same number of result columns|circular reference|incomplete input|requires one ORDER BY expression|frame starting offset|frame ending offset|unsupported frame specification")
 
 
 def code_of(sql):
@@ -124,6 +124,22 @@ def classify(case):
             return "F27-offset-without-limit"
     if d == "mssql" and kind == "dialect" and cons == [3, 0, 0] and OPEN_TAKE.search(src) and "OFFSET" in code:
         return "C07-N7-mssql-offset-without-order-by"
+    # ---- second layer of the scope checker (kind scopex: ambiguity 21/22, window frame 23, grouping 24/25)
+    # N14: `window range:a..b` with an offset bound and not exactly one sort key
+    if "range:" in src and "RANGE" in code:
+        if (kind == "scopex" and diag[0] == 23 and diag[1] == 2 and diag[2] == 4) or (kind == "sqlite" and "requires one ORDER BY expression" in msg):
+            return "C07-N14-range-frame-without-single-order-key"
+    # N15: two wildcard tables joined, a column of one of them used behind a split: the CTE projects `t.*, u.*` and the reader
+    # names the column bare -- ambiguous whenever both tables have it
+    if kind == "scopex" and diag[0] == 21 and "join" in src and re.search(r"\.\*, *[\w\"`]+\.\*", sql):
+        return "C07-N15-ambiguous-column-behind-stars"
+    # N9 seen by the grouping rule: TRUE / FALSE read as (ungrouped) column names on mssql
+    if d == "mssql" and kind == "scopex" and diag[0] == 24 and (names[2] or "").lower() in ("true", "false"):
+        return "C07-N9-mssql-boolean-literal"
+    # N12 seen by the ambiguity rule: the widened operand has the sort column twice (`SELECT b.a, t.a ..`), its reader names it
+    if kind == "scopex" and diag[0] == 21 and re.search(r"\bsort\b", src) and re.search(r"\b(append|remove|intersect|loop)\b", src) \
+            and re.search(r"\b(UNION|EXCEPT|INTERSECT)\b", code) and re.search(r",\s*[\"`]?\w+[\"`]?\.[\"`]?%s[\"`]? FROM\b" % re.escape(names[1] or "?"), sql):
+        return "C07-N12-sort-column-widens-operand"
     # N12: a sort in effect inside an operand of append / remove / intersect / loop whose key the operand's select does not keep:
     # the SELECT of that operand alone gets the sort column added.  Shapes: the FIRST operand (the loop's initial query) is
     # the WIDER one (F28 is the opposite: the first operand is pruned, it is the narrower one), or the argument pipeline of
